@@ -407,14 +407,14 @@ def attach_c09():
     from symplyphysics.core.symbols import id_generator
     from vf import attach
     orig = id_generator.next_id
-    last = dict(id_generator._ids)
+    last = dict(getattr(id_generator, "_ids", {}) or {})
     issued = set()
 
     def w(base=""):
         v = orig(base)
         hit("C09_ids_traced")
-        if v != last.get(base, 0) + 1:
-            violation("C09", f"suite:id-trace:not-increasing-by-one:{base or 'none'}", f"next_id({base!r}) returned {v} after {last.get(base, 0)}", None)
+        if v <= last.get(base, 0):
+            violation("C09", f"suite:id-trace:not-increasing:{base or 'none'}", f"next_id({base!r}) returned {v} after {last.get(base, 0)}", None)
         if (base, v) in issued:
             violation("C09", f"suite:id-trace:reissued:{base or 'none'}", f"id {base}{v} issued twice", None)
         issued.add((base, v))
